@@ -184,6 +184,17 @@ theorem C15_repeated_hyperslab_wf (b b1 b2 : Base) (sl1 sl2 : List PSlice) (h : 
   · exact ⟨ha, hb⟩
   · rw [he] at h2; cases h2
 
+/-- **A member of a grid named again after the whole grid** (`?g[0][0][2],g.y`, `?g,g.v`; since the repair of the
+    finding this check made with the lifted `repeated-item` requests): the collect pass leaves the output as it is —
+    the grid keeps its array first and its maps in axis order, so the hyperslab on the grid pairs every map with its
+    own axis.  (Before, the member was set again: it went behind the other maps and was sliced with another axis'
+    index: 200, then `ValueError` in the body.) -/
+theorem C15_grid_member_after_grid (src : Dataset) (out : List Var) (n m : Str) (a0 a b : Base) (ms0 ms : List Base)
+    (sl0 sl1 : List PSlice) (hf : findVar src.vars n = some (.grid n a0 ms0))
+    (hm : (a0 :: ms0).find? (·.name = m) = some b) (ho : findVar out n = some (.grid n a ms)) :
+    collect1Core src out (.path [(n, sl0), (m, sl1)]) = .ok out := by
+  simp [collect1Core, hf, findMember, hm, ho]
+
 /-- one axis of a repeated item: a window inside the axis and a hyperslab accepted against the shape it announces
     give a window inside the axis that announces exactly the number of positions it reads (never a negative or
     over-long dimension) -/
